@@ -172,3 +172,41 @@ Definition chk_order (qty : Q) (ins : list oin) (flags : list bool) (evs : list 
   oevs_eq (snd r) evs && status_eqb (os_status (fst r)) st && approx (os_filled (fst r)) filled &&
   approx (os_avg (fst r)) avg && approx (os_tcost (fst r)) tcost &&
   negb (match prun P0 (snd r) with PFail => true | _ => false end).
+
+(* ---- calendar and history (C20) ---- *)
+From RQ Require Import Model.Calendar.
+Fixpoint zlist_eq (a b : list Z) : bool :=
+  match a, b with [], [] => true | x :: s, y :: t => (x =? y)%Z && zlist_eq s t | _, _ => false end.
+Fixpoint rows_eq (a b : list hbar) : bool :=
+  match a, b with
+  | [], [] => true
+  | x :: s, y :: t => (h_dt x =? h_dt y)%Z && approx (h_price x) (h_price y) && approx_scale (qabs (h_volume x)) (h_volume x) (h_volume y) && rows_eq s t
+  | _, _ => false
+  end.
+Definition chk_prev (cal : list Z) (d n r : Z) : bool := (prev_trading_date cal d n =? r)%Z.
+Definition chk_next (cal : list Z) (d n r : Z) : bool := (next_trading_date cal d n =? r)%Z.
+Definition chk_dates (cal : list Z) (a b : Z) (r : list Z) : bool := zlist_eq (trading_dates cal a b) r.
+Definition chk_count (cal : list Z) (a b r : Z) : bool := (count_trading_dates cal a b =? r)%Z.
+Definition chk_history (cal : list Z) (bars : list hbar) (table : list (Z * Q)) (is_cs no_adjust_kind sys_minute include_now : bool)
+           (ph : hphase) (calendar_d trading_d n : Z) (skip : bool) (adj : adjust_type) (expected : list hbar) : bool :=
+  let e := history_end sys_minute include_now ph calendar_d (prev_trading_date cal trading_d 1) in
+  rows_eq (adjust_window (history_window bars skip is_cs (fst e) n) table adj no_adjust_kind trading_d) expected.
+
+(* ---- scheduler (C17) ---- *)
+From RQ Require Import Model.Scheduler.
+Fixpoint ords_eq (a : list cday) (b : list Z) : bool :=
+  match a, b with [], [] => true | x :: s, y :: t => (c_ord x =? y)%Z && ords_eq s t | _, _ => false end.
+Fixpoint sched_bars (ranges : list (Z * Z)) (daily : bool) (s : sched) (today : cday) (rules : list (day_rule * time_rule))
+         (bars : list (Z * list bool)) : bool :=
+  match bars with
+  | [] => true
+  | (m, fired) :: t =>
+      bools_eq (map (fires ranges daily false (at_bar s m) today) rules) fired &&
+      sched_bars ranges daily (after_bar (at_bar s m)) today rules t
+  end.
+Definition chk_sched_day (cal : list cday) (ranges : list (Z * Z)) (daily : bool) (start_minute : Z) (s_prev : sched) (today : cday)
+           (rules : list (day_rule * time_rule)) (fired_bt : list bool) (bars : list (Z * list bool)) (week month : list Z) : bool :=
+  let s1 := next_day cal start_minute s_prev today in
+  ords_eq (sc_week s1) week && ords_eq (sc_month s1) month &&
+  bools_eq (map (fires ranges daily true s1 today) rules) fired_bt &&
+  sched_bars ranges daily s1 today rules bars.
